@@ -260,3 +260,52 @@ package locate
 //@   loop 5 invariant merger: mergerOK(merger) && validRegions(regions) && -1 <= rangeindex && rangeindex < len(regions)
 //@   at call(append:cachedRegions) assert holdscursor: arg1[0] != nil && arg1[0].meta != nil && inRange(arg1[0].meta.StartKey, arg1[0].meta.EndKey, keyRange.StartKey)
 //@   at call(append:uncachedRanges) assert fromcursor: arg1[0].StartKey == keyRange.StartKey && arg1[0].EndKey == keyRange.EndKey
+
+// ---- C10: flag discipline of a request send ------------------------------------------------------------------------
+// Only point reads, batch reads, scans and coprocessor reads count as read requests.
+//@ func isReadReq
+//@   prop C10
+//@   pure
+//@   ensures result == (tp == tikvrpc.CmdGet || tp == tikvrpc.CmdBatchGet || tp == tikvrpc.CmdScan || tp == tikvrpc.CmdCop || tp == tikvrpc.CmdBatchCop || tp == tikvrpc.CmdCopStream)
+
+// Leader-read replica selection never turns a request that is not a read into a replica read, and never into a stale read.
+//@ func (*replicaSelector) nextForReplicaReadLeader
+//@   prop C10
+//@   opaque-callee next EstimatedWaitTime hasFlag
+//@   ensures write: !s.isReadOnlyReq ==> (req.ReplicaRead ==> old(req.ReplicaRead))
+//@   ensures stale: req.StaleRead ==> old(req.StaleRead)
+
+// Mixed replica selection marks a request as a stale read only for a selector created for a stale read, and as a replica
+// read only for read requests or stale-read selectors.
+//@ func (*replicaSelector) nextForReplicaReadMixed
+//@   prop C10
+//@   opaque-callee next isExhausted IsLabelsMatch GetLeaderPeerID canSendReplicaRead recordReplicaFlowsStats
+//@   ensures stale: req.StaleRead ==> s.isStaleRead || old(req.StaleRead)
+//@   ensures write: !s.isReadOnlyReq && !s.isStaleRead ==> (req.ReplicaRead ==> old(req.ReplicaRead))
+
+// One step of the send state machine: every send after the first carries the retry marker; at most one send per step;
+// a step that ends the call with a response and no error either sent the request in this step or hands out a
+// region-error response it has just synthesised (never an invented success).
+//@ func (*sendReqState) next
+//@   prop C10
+//@   may-panic
+//@   opaque-callee onSendFail onRegionError getRPCContext backoffOnNoCandidate backoffOnRetry setReqAccessLocation patchRequestSource SetContextNoAttach getStoreToken releaseStoreToken send onSendSuccess CheckKilled TraceIDFromContext GetTraceControlFlags replicaType
+//@   at call(send) assert marked: s.vars.sendTimes > 0 ==> s.args.req.IsRetryRequest
+//@   ensures once: s.vars.sendTimes == old(s.vars.sendTimes) || s.vars.sendTimes == old(s.vars.sendTimes) + 1
+//@   ensures genuine: done && s.vars.err == nil && s.vars.resp != nil && s.vars.regionErr == nil ==> s.vars.sendTimes == old(s.vars.sendTimes) + 1
+
+// Read-timestamp validation looks at the timestamp and the stale-read flag the request really carries.
+//@ func (*RegionRequestSender) validateReadTS
+//@   prop C10
+//@   may-panic
+//@   at call(ValidateReadTS) assert asked: arg_readTS == readTS && arg_isStaleRead == req.StaleRead
+//@   ensures reads: (req.StoreTp != tikvrpc.TiDB && (req.Type == tikvrpc.CmdGet || req.Type == tikvrpc.CmdScan || req.Type == tikvrpc.CmdBatchGet || req.Type == tikvrpc.CmdCop || req.Type == tikvrpc.CmdCopStream ||
+//@       req.Type == tikvrpc.CmdBatchCop || req.Type == tikvrpc.CmdScanLock || req.Type == tikvrpc.CmdBufferBatchGet)) || result == nil
+
+// Nothing is sent before the read timestamp passed validation.
+//@ func (*RegionRequestSender) SendReqCtx
+//@   prop C10
+//@   may-panic
+//@   opaque-callee SendReqAsync failpointSendReqResult disableReadFeaturesForNextGen reset logSendReqError next GetTotalSleep SpanFromContext
+//@   at call(next) assert validated: err == nil
+//@   loop 2 invariant validated: err == nil
